@@ -104,6 +104,20 @@ fn rc2(init: &Iso2D, rc: &P2, x: &[f64; 3], p: &P2, sp: &P2, spn: f64, v: &P2) -
     moved.set(&parry2d_f64::na::Vector3::new(x[0] + dv.x, x[1] + dv.y, x[2]));
     let diff = (moved.transform() * q) - (tr * q);
     ensure!((diff - dv).norm() <= 1e-9 * (mag + dv.norm() + q.coords.norm()), "C08/rc2/pure_translation", "changing only the translation parameters by {:?} moved a point by {:?} (rc {:?})", dv, diff, rcp);
+    // history of updates on one object: translation-only, then angle too, then back
+    let mut hist = moved.clone();
+    for (step, xs) in [(2, [x[0] + dv.x, x[1] + dv.y, x[2]]), (3, [x[0] + dv.x, x[1] + dv.y, x[2] + 0.4]), (4, [x[0], x[1] - dv.y, x[2] + 0.4])] {
+        let xs = parry2d_f64::na::Vector3::new(xs[0], xs[1], xs[2]);
+        hist.set(&xs);
+        let trh = *hist.transform();
+        let m2 = mag + dv.norm();
+        let prod = hist.inverse() * trh;
+        ensure!(prod.translation.vector.norm() <= 1e-9 * m2 && prod.rotation.angle().abs() <= 1e-9, "C08/rc2/history/inverse", "after update {step} inverse * transform is not the identity");
+        ensure!((hist.current_rc() - trh * rcp).norm() <= 1e-9 * m2, "C08/rc2/history/current_rc", "after update {step} current_rc is not transform*rc");
+        let mut fresh = RcParams2::from_initial(&t0, &rcp);
+        fresh.set(&xs);
+        ensure!(same(fresh.transform(), &trh, 1e-9 * m2), "C08/rc2/history/path_dependent", "after update {step} the transform differs from that of a fresh object with the same parameters");
+    }
     // Jacobian vs central finite differences of n . (T(x) T(x0)^-1 p - c)
     let s = SurfacePoint2::new_normalize(pt2(sp), engeom::Vector2::new(spn.cos(), spn.sin()));
     let pc = tr * q; // the current (already transformed) test point
@@ -212,6 +226,28 @@ fn rc3(e: &Euler, t: &P3, rc: &P3, x: &[f64; 6], p: &P3, n: &P3, d: f64, v: &P3)
     moved.set(&Vector6::new(x[0] + dv.x, x[1] + dv.y, x[2] + dv.z, x[3], x[4], x[5]));
     let diff = (moved.transform() * q) - (tr * q);
     ensure!((diff - dv).norm() <= 1e-9 * (mag + dv.norm() + q.coords.norm()), "C08/rc3/pure_translation", "changing only the translation parameters by {:?} moved a point by {:?}", dv, diff);
+    // ... and the object stays consistent through a history of updates: after this second, translation-only update and
+    // after a third one that changes the angles again, inverse and moved centre describe the current transform
+    let mut hist = moved.clone();
+    for (step, xs) in [
+        (2, Vector6::new(x[0] + dv.x, x[1] + dv.y, x[2] + dv.z, x[3], x[4], x[5])),
+        (3, Vector6::new(x[0] + dv.x, x[1] + dv.y, x[2] + dv.z, x[3] + 0.3, x[4] - 0.2, x[5] + 0.7)),
+        (4, Vector6::new(x[0], x[1] - dv.y, x[2], x[3] + 0.3, x[4] - 0.2, x[5] + 0.7)),
+    ] {
+        hist.set(&xs);
+        let trh = *hist.transform();
+        let m2 = mag + dv.norm();
+        let prod = hist.inverse() * trh;
+        ensure!(prod.translation.vector.norm() <= 1e-9 * m2 && prod.rotation.angle().abs() <= 1e-9, "C08/rc3/history/inverse", "after update {step} inverse * transform is not the identity (|t| {:e}, angle {:e})", prod.translation.vector.norm(), prod.rotation.angle());
+        ensure!((hist.current_rc() - trh * rcp).norm() <= 1e-9 * m2, "C08/rc3/history/current_rc", "after update {step} current_rc is not transform*rc");
+        let expect = t0 * rcp + Vector3::new(xs[0], xs[1], xs[2]);
+        ensure!((trh * rcp - expect).norm() <= 1e-9 * m2, "C08/rc3/history/centre_motion", "after update {step} transform*rc = {:?}, expected {:?}", trh * rcp, expect);
+        // the same parameters set on a fresh object give the same transform: no dependence on the history
+        let mut fresh = RcParams3::from_initial(&t0, &rcp);
+        fresh.set(&xs);
+        let df = fresh.transform().inverse() * trh;
+        ensure!(df.translation.vector.norm() <= 1e-9 * m2 && df.rotation.angle().abs() <= 1e-9, "C08/rc3/history/path_dependent", "after update {step} the transform differs from that of a fresh object with the same parameters");
+    }
     // Euler derivative matrices vs finite differences of Rx Ry Rz, and rd = d R^T
     let rot = params.rotations();
     let lib_r = |e: &[f64]| *RotationMatrices::from_euler(e[0], e[1], e[2]).q.to_rotation_matrix().matrix();
